@@ -1,7 +1,7 @@
 (* C20 — the JSON server is a faithful transport for the in-process exchange. Statements only; for every number type (floats are leaves of the JSON tree). PARTIAL BY NATURE: the theorems cover the handler layer (Some -> 200 + body, None -> 400) and the JSON-tree conventions of every message type; serde_json's text layer (number printing/parsing), actix routing/extractors and the mutex are exercised by the correspondence run, not modelled. *)
 From Coq Require Import ZArith NArith List Bool String.
 From Alator Require Import Model.Num Model.Quirks Model.Exchange Model.Uist Model.Jura Model.Server Model.Json
-  Proofs.JsonProofs.
+  Proofs.JsonProofs Proofs.JsonJuraProofs.
 Import ListNotations.
 Local Open Scope string_scope.
 
@@ -192,6 +192,103 @@ Theorem c20_rt_jura_delete_request :
   forall (F : Type) (k : N * N), @dec_jdelete F (@enc_jdelete F k) = @Some (N * N) k.
 Proof. exact @rt_jdelete. Qed.
 
+(* Jura service, every request sequence over the endpoints http/jura.rs mounts (tick, fetch_quotes, init, info, insert_order, delete_order — it has no `now` and no new_backtest handler; those two operations are excluded by hypothesis), for EVERY exchange: the decoded response stream equals the in-process result stream (wire types: prices and sizes are strings on this service). *)
+Theorem c20_jura_transport_faithful :
+  forall (F X : Type) (x_init : X)
+           (x_tick : X ->
+                     quotes (quote F) ->
+                     list nat -> option (X * (list fwire * list (jwire F) * list N)))
+           (x_insert : X -> jwire F -> X) (x_delete : X -> N * N -> X)
+           (s : app X (quotes (quote F))) (ops : list (sop (jwire F) (N * N))),
+         @Forall (sop (jwire F) (N * N))
+           (fun o : sop (jwire F) (N * N) => @j_endpoint F o = true) ops ->
+         @Forall (sres (quotes (quote F)) (list fwire * list (jwire F) * list N))
+           (fun r : sres (quotes (quote F)) (list fwire * list (jwire F) * list N) =>
+            r <> @RPanic (quotes (quote F)) (list fwire * list (jwire F) * list N))
+           (@snd (app X (quotes (quote F)))
+              (list (sres (quotes (quote F)) (list fwire * list (jwire F) * list N)))
+              (@srun X (quotes (quote F)) (jwire F) (N * N)
+                 (list fwire * list (jwire F) * list N) x_init x_tick x_insert x_delete
+                 ([], [], []) clean true s ops)) ->
+         @jzip_receive F ops
+           (@map (sres (quotes (quote F)) (list fwire * list (jwire F) * list N)) 
+              (@response F) (@j_respond F)
+              (@snd (app X (quotes (quote F)))
+                 (list (sres (quotes (quote F)) (list fwire * list (jwire F) * list N)))
+                 (@srun X (quotes (quote F)) (jwire F) (N * N)
+                    (list fwire * list (jwire F) * list N) x_init x_tick x_insert x_delete
+                    ([], [], []) clean true s ops))) =
+         @map (sres (quotes (quote F)) (list fwire * list (jwire F) * list N))
+           (option (sres (quotes (quote F)) (list fwire * list (jwire F) * list N)))
+           (@Some (sres (quotes (quote F)) (list fwire * list (jwire F) * list N)))
+           (@snd (app X (quotes (quote F)))
+              (list (sres (quotes (quote F)) (list fwire * list (jwire F) * list N)))
+              (@srun X (quotes (quote F)) (jwire F) (N * N)
+                 (list fwire * list (jwire F) * list N) x_init x_tick x_insert x_delete
+                 ([], [], []) clean true s ops)).
+Proof. exact @j_transport_faithful. Qed.
+
+(* Jura, one request: after JSON decoding the client holds exactly what the in-process call returned. *)
+Theorem c20_jura_handler_faithful :
+  forall (F X : Type) (x_init : X)
+           (x_tick : X ->
+                     quotes (quote F) ->
+                     list nat -> option (X * (list fwire * list (jwire F) * list N)))
+           (x_insert : X -> jwire F -> X) (x_delete : X -> N * N -> X)
+           (s : app X (quotes (quote F))) (o : sop (jwire F) (N * N)),
+         @j_endpoint F o = true ->
+         @snd (app X (quotes (quote F)))
+           (sres (quotes (quote F)) (list fwire * list (jwire F) * list N))
+           (@sstep X (quotes (quote F)) (jwire F) (N * N) (list fwire * list (jwire F) * list N)
+              x_init x_tick x_insert x_delete ([], [], []) clean true s o) <>
+         @RPanic (quotes (quote F)) (list fwire * list (jwire F) * list N) ->
+         @j_receive F o
+           (@j_respond F
+              (@snd (app X (quotes (quote F)))
+                 (sres (quotes (quote F)) (list fwire * list (jwire F) * list N))
+                 (@sstep X (quotes (quote F)) (jwire F) (N * N)
+                    (list fwire * list (jwire F) * list N) x_init x_tick x_insert x_delete
+                    ([], [], []) clean true s o))) =
+         @Some (sres (quotes (quote F)) (list fwire * list (jwire F) * list N))
+           (@snd (app X (quotes (quote F)))
+              (sres (quotes (quote F)) (list fwire * list (jwire F) * list N))
+              (@sstep X (quotes (quote F)) (jwire F) (N * N)
+                 (list fwire * list (jwire F) * list N) x_init x_tick x_insert x_delete
+                 ([], [], []) clean true s o)).
+Proof. exact @j_handler_faithful. Qed.
+
+(* Jura: HTTP 400 exactly where the in-process call reports an unknown backtest or dataset. *)
+Theorem c20_jura_status_400_iff_none :
+  forall (F X : Type) (x_init : X)
+           (x_tick : X ->
+                     quotes (quote F) ->
+                     list nat -> option (X * (list fwire * list (jwire F) * list N)))
+           (x_insert : X -> jwire F -> X) (x_delete : X -> N * N -> X)
+           (s : app X (quotes (quote F))) (o : sop (jwire F) (N * N)),
+         @snd (app X (quotes (quote F)))
+           (sres (quotes (quote F)) (list fwire * list (jwire F) * list N))
+           (@sstep X (quotes (quote F)) (jwire F) (N * N) (list fwire * list (jwire F) * list N)
+              x_init x_tick x_insert x_delete ([], [], []) clean true s o) <>
+         @RPanic (quotes (quote F)) (list fwire * list (jwire F) * list N) ->
+         @fst nat (json F)
+           (@j_respond F
+              (@snd (app X (quotes (quote F)))
+                 (sres (quotes (quote F)) (list fwire * list (jwire F) * list N))
+                 (@sstep X (quotes (quote F)) (jwire F) (N * N)
+                    (list fwire * list (jwire F) * list N) x_init x_tick x_insert x_delete
+                    ([], [], []) clean true s o))) = 400 <->
+         match
+           @snd (app X (quotes (quote F)))
+             (sres (quotes (quote F)) (list fwire * list (jwire F) * list N))
+             (@sstep X (quotes (quote F)) (jwire F) (N * N)
+                (list fwire * list (jwire F) * list N) x_init x_tick x_insert x_delete
+                ([], [], []) clean true s o)
+         with
+         | RTick None | RFetch None | RId None | RUnit None | RInfo None | RNow None => True
+         | _ => False
+         end.
+Proof. exact @j_status_400_iff_none. Qed.
+
 (* Refuted for the code as it was: the Jura HTTP TickResponse had no field for the triggered child ids that the in-process tick returns — they are lost in transport. *)
 Theorem c20_refuted_q_jura_http_drops_triggered :
   forall (F : Type) (qk : quirks) (r : @jtick F),
@@ -227,4 +324,7 @@ Print Assumptions c20_rt_jura_fill.
 Print Assumptions c20_rt_jura_tick.
 Print Assumptions c20_rt_jura_insert_request.
 Print Assumptions c20_rt_jura_delete_request.
+Print Assumptions c20_jura_transport_faithful.
+Print Assumptions c20_jura_handler_faithful.
+Print Assumptions c20_jura_status_400_iff_none.
 Print Assumptions c20_refuted_q_jura_http_drops_triggered.
